@@ -47,8 +47,10 @@ def do_replay(path):
     try:
         gen = os.path.join(ws.hk, "src", "gen_%s.rs" % rp["feature"])
         open(gen, "w").write(rp["gen"])
+        for fn, src in (rp.get("extra_files") or {}).items():
+            open(os.path.join(ws.hk, "src", fn), "w").write(src)
         out = core.native_replay(ws.hk, rp["feature"], None, rp["test_name"], rp["test_src"],
-                                 features=rp.get("features"))
+                                 features=rp.get("features"), genfile=rp.get("genfile"))
         rep = False
         for prof, (failed, msg) in out.items():
             log("replay profile=%s reproduced=%s %s" % (prof, failed, msg))
@@ -194,7 +196,7 @@ def main():
                 continue
             _, cdesc, tname, tsrc = pb[0]
             replayed += 1
-            out = core.native_replay(ws.hk, feature, None, tname, tsrc, features=features)
+            out = core.native_replay(ws.hk, feature, None, tname, tsrc, features=features, genfile=j.genfile)
             rep = {p: v for p, v in out.items()}
             reproduced = any(v[0] for v in rep.values())
             rdir = os.path.join(core.VERIF, "replays", prop)
@@ -203,7 +205,8 @@ def main():
             json.dump({
                 "property": prop, "harness": j.name, "feature": feature, "features": features,
                 "obligation": j.desc, "failed_check": d0, "location": loc0,
-                "gen": plan.get("extra_gen", "") + j.code + "\n",
+                "gen": plan.get("extra_gen", "") + j.code + "\n", "genfile": j.genfile,
+                "extra_files": plan.get("extra_files", {}),
                 "test_name": tname, "test_src": tsrc,
                 "native": {p: {"reproduced": v[0], "message": v[1]} for p, v in rep.items()},
             }, open(rpath, "w"), indent=1)
